@@ -129,7 +129,7 @@ class EndpointsMgr:
             except OSError as err:
                 if err.errno == errno.EEXIST:
                     existing_owner = os.path.basename(os.readlink(rule_file))
-                    if existing_owner != appname:
+                    if existing_owner != os.path.basename(owner):
                         raise
                 else:
                     raise
